@@ -9,95 +9,257 @@ open World FloorCoreL C03
 
 /-! ### parts-only steps -/
 
-theorem G.parts {E N : List Nat} {w w' : World} (h : G E N w) (hd : w'.devs = w.devs)
+theorem G.parts {E N A : List Nat} {w w' : World} (h : G E N A w) (hd : w'.devs = w.devs)
     (he : w'.env = w.env) (hs : w'.scripts = w.scripts) (ht : w'.targets = w.targets)
-    (hk : ∀ p, (w'.part p).kids = none) (hl : w.parts.length ≤ w'.parts.length)
-    (hq : ∀ p, p < w.parts.length →
-      (w'.part p).quality = (w.part p).quality ∧ (w'.part p).value = (w.part p).value) :
-    G E N w' := by
+    (hpl : NoBatch w → PartsLeaf w') (hl : w.parts.length ≤ w'.parts.length)
+    (hkv : KidsValid w') (hstk : StkOK w')
+    (hq : ∀ d p, holdsD (w.dev d) = some p → d ∉ E → attrs w' p = attrs w p)
+    (hrm : w'.rm.waiting = w.rm.waiting := by rfl) (hg : w'.groups = w.groups := by rfl) :
+    G E N A w' := by
   have hdev : ∀ y, w'.dev y = w.dev y := fun y => dev_congr hd y
   have hnow : w'.now = w.now := by unfold World.now; rw [he]
-  refine h.transfer (sw_of_fields hd hs (by rw [ht])) (partsLeaf_of_kids hk)
+  refine h.transfer (sw_of_fields hd hs (by rw [ht]) hg) hpl
     (by rw [he]; exact h.inv) hnow
     (evOK_of h.ev (fun d => by rw [hdev]) (by rw [he]; exact fun _ h => Or.inl h))
     (by intro d hdm p hp; rw [hd] at hdm; exact Nat.lt_of_lt_of_le (h.valid d hdm p hp) hl)
-    hq (fun y hy hacc => ⟨hy, by rw [← hdev]; exact hacc⟩) ?_
+    hkv hstk
+    (h.wr.same (sw_of_fields hd hs (by rw [ht]) hg) hrm (fun y hy => by rw [← hdev]; exact hy))
+    h.aok (fun n y hy hacc => ⟨hy, by rw [← hdev]; exact hacc⟩) ?_
   intro d p hdp hdE
-  refine Or.inr ⟨by rw [← hdev]; exact hdp, hdE, ?_, ?_⟩
+  have hdp0 : holdsD (w.dev d) = some p := by rw [← hdev]; exact hdp
+  refine Or.inr ⟨hdp0, hdE, hq d p hdp0 hdE, ?_, ?_⟩
   · exact att_mono (by rw [he]; exact fun _ h => h) (by rw [hdev])
       (by rw [hdev, hnow]; exact Int.le_refl _)
   · intro hf; left; rw [hdev]; exact hf
 
-theorem G.modPart {E N : List Nat} {w : World} (h : G E N w) (p : Nat) (f : PartRec → PartRec)
-    (hf : ∀ r, (f r).quality = r.quality ∧ (f r).value = r.value ∧ (f r).kids = r.kids) :
-    G E N (w.modPart p f) := by
-  refine h.parts rfl rfl rfl rfl (fun q => ?_) (by simp) (fun q _ => ?_)
-  · rw [part_modPart]; split
-    · rw [(hf _).2.2]; exact h.s1.2.kids _
-    · exact h.s1.2.kids _
-  · rw [part_modPart]; split
-    · next hc => rw [(hf _).1, (hf _).2.1, hc.1]; exact ⟨rfl, rfl⟩
-    · exact ⟨rfl, rfl⟩
+/-- the value of every part is the same in both worlds, and so are the parts of `q` -/
+theorem partValue_congr {w w' : World} (hv : ∀ k, (w'.part k).value = (w.part k).value) {q : Nat}
+    (hk : (w'.part q).kids = (w.part q).kids) : w'.partValue q = w.partValue q := by
+  unfold partValue
+  rw [hk, hv q]
+  cases (w.part q).kids with
+  | none => rfl
+  | some l =>
+    simp only []
+    congr 1
+    exact List.map_congr_left (fun k _ => hv k)
 
-theorem G.of_noParts {E N : List Nat} {w w' : World} (h : G E N w) (hn : w'.noParts = w.noParts)
+theorem attrs_congr {w w' : World} (hv : ∀ k, (w'.part k).value = (w.part k).value) {q : Nat}
+    (hq : (w'.part q).quality = (w.part q).quality)
+    (hk : (w'.part q).kids = (w.part q).kids)
+    (hs : (w'.part q).stack = (w.part q).stack) : attrs w' q = attrs w q := by
+  unfold attrs
+  rw [hq, partValue_congr hv hk, hs]
+  unfold leafCount
+  rw [hk]
+
+/-- changing a part (its value excepted) does not change what is read of another part -/
+theorem attrs_modPart_ne (w : World) (p : Nat) (f : PartRec → PartRec)
+    (hf : ∀ r, (f r).value = r.value) {q : Nat} (hqp : q ≠ p) :
+    attrs (w.modPart p f) q = attrs w q := by
+  have hv : ∀ k, ((w.modPart p f).part k).value = (w.part k).value := by
+    intro k
+    rw [part_modPart]; split
+    · next hc => rw [hf, hc.1]
+    · rfl
+  have hpq : (w.modPart p f).part q = w.part q := by
+    rw [part_modPart, if_neg (fun hc => hqp hc.1.symm)]
+  exact attrs_congr hv (by rw [hpq]) (by rw [hpq]) (by rw [hpq])
+
+theorem G.modPart {E N A : List Nat} {w : World} (h : G E N A w) (p : Nat) (f : PartRec → PartRec)
+    (hf : ∀ r, (f r).quality = r.quality ∧ (f r).value = r.value ∧ (f r).kids = r.kids ∧
+      (f r).stack = r.stack) :
+    G E N A (w.modPart p f) := by
+  have hall : ∀ q, ((w.modPart p f).part q).quality = (w.part q).quality ∧
+      ((w.modPart p f).part q).value = (w.part q).value ∧
+      ((w.modPart p f).part q).kids = (w.part q).kids ∧
+      ((w.modPart p f).part q).stack = (w.part q).stack := by
+    intro q
+    rw [part_modPart]; split
+    · next hc => rw [(hf _).1, (hf _).2.1, (hf _).2.2.1, (hf _).2.2.2, hc.1]; exact ⟨rfl, rfl, rfl, rfl⟩
+    · exact ⟨rfl, rfl, rfl, rfl⟩
+  refine h.parts rfl rfl rfl rfl (fun hb => partsLeaf_of_kids (fun q => ?_)) (by simp)
+    (kidsValid_of_part (fun q l hl k hk => by
+      rw [(hall q).2.2.1] at hl
+      simpa using h.kv.part q hl k hk))
+    (h.stk.map (fun _ => rfl) (fun h2 q g hg => by
+      rw [(hall q).2.2.2] at hg
+      exact h2 q g hg))
+    (fun d q _ _ => attrs_congr (fun k => (hall k).2.1) (hall q).1 (hall q).2.2.1 (hall q).2.2.2)
+  rw [(hall q).2.2.1]; exact (h.pl hb).kids q
+
+/-- a change of the batch structure of a part that no (non-exempt) holder offers -/
+theorem G.modPartKids {E N A : List Nat} {w : World} (h : G E N A w) (p : Nat)
+    (f : PartRec → PartRec) (hf : ∀ r, (f r).value = r.value)
+    (hp : ∀ d, d ∉ E → holdsD (w.dev d) ≠ some p) (hnb : ¬ NoBatch w)
+    (hkv : ∀ l, (f (w.part p)).kids = some l → ∀ k ∈ l, k < w.parts.length)
+    (hstk : (∀ g ∈ (w.part p).stack, (w.dev g).kind = .gpath) →
+      ∀ g ∈ (f (w.part p)).stack, (w.dev g).kind = .gpath) :
+    G E N A (w.modPart p f) :=
+  h.parts rfl rfl rfl rfl (fun hb => absurd hb hnb) (by simp)
+    (kidsValid_of_part (fun q l hl k hk => by
+      rw [part_modPart] at hl
+      split at hl
+      · simpa using hkv l hl k hk
+      · simpa using h.kv.part q hl k hk))
+    (stkOK_modPart h.stk p f hstk)
+    (fun d q hd hdE => attrs_modPart_ne w p f hf (fun hc => hp d hdE (hc ▸ hd)))
+
+theorem G.of_noParts {E N A : List Nat} {w w' : World} (h : G E N A w) (hn : w'.noParts = w.noParts)
     (hk : ∀ p, (w'.part p).kids = (w.part p).kids) (hl : w'.parts.length = w.parts.length)
-    (hq : ∀ p, (w'.part p).quality = (w.part p).quality ∧ (w'.part p).value = (w.part p).value) :
-    G E N w' :=
+    (hq : ∀ p, (w'.part p).quality = (w.part p).quality ∧ (w'.part p).value = (w.part p).value ∧
+      (w'.part p).stack = (w.part p).stack) :
+    G E N A w' :=
   h.parts (by have := congrArg World.devs hn; exact this)
     (by have := congrArg World.env hn; exact this)
     (by have := congrArg World.scripts hn; exact this)
-    (by have := congrArg World.targets hn; exact this) (fun p => by rw [hk]; exact h.s1.2.kids p) (by rw [hl]; exact Nat.le_refl _)
-    (fun p _ => hq p)
+    (by have := congrArg World.targets hn; exact this)
+    (fun hb => partsLeaf_of_kids (fun p => by rw [hk]; exact (h.pl hb).kids p))
+    (by rw [hl]; exact Nat.le_refl _)
+    (kidsValid_of_part (fun q l hq k hkk => by
+      rw [hk] at hq; rw [hl]; exact h.kv.part q hq k hkk))
+    (h.stk.map (fun d => by
+        have hd : w'.devs = w.devs := by have := congrArg World.devs hn; exact this
+        rw [dev_congr hd]) (fun h2 q g hg => by
+      rw [(hq q).2.2] at hg
+      exact h2 q g hg))
+    (fun d p _ _ => attrs_congr (fun k => (hq k).2.1) (hq p).1 (hk p) (hq p).2.2) (by rw [noParts_rm_eq hn])
+    (groups_noParts hn)
 
-theorem G.addHist {E N : List Nat} {w : World} (h : G E N w) (p d : Nat) : G E N (w.addHist p d) :=
+theorem G.addHist {E N A : List Nat} {w : World} (h : G E N A w) (p d : Nat) :
+    G E N A (w.addHist p d) :=
   h.of_noParts (addHist_noParts w p d) (fun q => addHist_part_kids ..) (addHist_parts_length ..)
-    (fun q => ⟨addHist_part_quality .., addHist_part_value ..⟩)
+    (fun q => ⟨addHist_part_quality .., addHist_part_value .., addHist_part_stack ..⟩)
 
-theorem G.dropHist {E N : List Nat} {w : World} (h : G E N w) (p : Nat) : G E N (w.dropHist p) :=
+theorem G.dropHist {E N A : List Nat} {w : World} (h : G E N A w) (p : Nat) :
+    G E N A (w.dropHist p) :=
   h.of_noParts (dropHist_noParts w p) (fun q => dropHist_part_kids ..) (dropHist_parts_length ..)
-    (fun q => ⟨dropHist_part_quality .., dropHist_part_value ..⟩)
+    (fun q => ⟨dropHist_part_quality .., dropHist_part_value .., dropHist_part_stack ..⟩)
 
-theorem G.newPart {E N : List Nat} {w : World} (h : G E N w) (r : PartRec) (hr : r.kids = none) :
-    G E N (w.newPart r).1 := by
-  refine h.parts rfl rfl rfl rfl (fun q => ?_) (by simp) (fun q hq => ?_)
-  · by_cases hq : q < w.parts.length
-    · rw [part_newPart_old hq]; exact h.s1.2.kids q
-    · by_cases hq2 : q = w.parts.length
-      · subst hq2; rw [part_newPart_new]; exact hr
-      · rw [part_of_length_le (by simp; omega)]; rfl
-  · rw [part_newPart_old hq]; exact ⟨rfl, rfl⟩
+theorem part_append_old (w : World) (l : List PartRec) {q : Nat} (hq : q < w.parts.length) :
+    ({ w with parts := w.parts ++ l } : World).part q = w.part q := by
+  unfold World.part
+  simp only [List.getD_eq_getElem?_getD]
+  rw [List.getElem?_append_left hq]
+
+/-- what is read of an existing part does not change when parts are appended, provided the parts
+it consists of exist -/
+theorem attrs_append (w : World) (l : List PartRec) {q : Nat} (hq : q < w.parts.length)
+    (hk : ∀ ks, (w.part q).kids = some ks → ∀ k ∈ ks, k < w.parts.length) :
+    attrs ({ w with parts := w.parts ++ l } : World) q = attrs w q := by
+  have hpq := part_append_old w l hq
+  unfold attrs partValue leafCount
+  rw [hpq]
+  cases hkk : (w.part q).kids with
+  | none => rfl
+  | some ks =>
+    simp only []
+    have : ks.map (fun k => (({ w with parts := w.parts ++ l } : World).part k).value) =
+        ks.map (fun k => (w.part k).value) :=
+      List.map_congr_left (fun k hkl => by rw [part_append_old w l (hk ks hkk k hkl)])
+    rw [this]
+
+/-- new parts are appended to the parts table -/
+theorem G.appendParts {E N A : List Nat} {w : World} (h : G E N A w) (l : List PartRec)
+    (hl : NoBatch w → ∀ r ∈ l, r.kids = none)
+    (hkv : ∀ r ∈ l, ∀ ks, r.kids = some ks → ∀ k ∈ ks, k < w.parts.length + l.length)
+    (hst : ∀ r ∈ l, r.stack = []) :
+    G E N A { w with parts := w.parts ++ l } := by
+  refine h.parts rfl rfl rfl rfl (fun hb => ?_) (by simp) ?_
+    (h.stk.imp id (fun h2 r hr g hg => by
+      rcases List.mem_append.mp hr with hr | hr
+      · exact h2 r hr g hg
+      · rw [hst r hr] at hg; cases hg))
+    (fun d q hd hdE => attrs_append w l (h.valid.dev d q (holdsD_mem_heldL hd))
+      (fun ks hks => h.kv.part q hks))
+  · intro r hr
+    rcases List.mem_append.mp hr with hr | hr
+    · exact h.pl hb r hr
+    · exact hl hb r hr
+  · intro r hr ks hks k hk
+    simp only [List.length_append]
+    rcases List.mem_append.mp hr with hr | hr
+    · exact Nat.lt_of_lt_of_le (h.kv r hr ks hks k hk) (Nat.le_add_right _ _)
+    · exact hkv r hr ks hks k hk
+
+theorem G.newPart {E N A : List Nat} {w : World} (h : G E N A w) (r : PartRec)
+    (hr : NoBatch w → r.kids = none)
+    (hrk : ∀ l, r.kids = some l → ∀ k ∈ l, k < w.parts.length)
+    (hrs : r.stack = [] := by rfl) :
+    G E N A (w.newPart r).1 :=
+  h.appendParts [r] (fun hb r' hr' => by rw [List.mem_singleton] at hr'; subst hr'; exact hr hb)
+    (fun r' hr' ks hks k hk => by
+      rw [List.mem_singleton] at hr'; subst hr'
+      exact Nat.lt_of_lt_of_le (hrk ks hks k hk) (Nat.le_add_right _ _))
+    (fun r' hr' => by rw [List.mem_singleton] at hr'; subst hr'; exact hrs)
 
 /-! ### exemption and discharge -/
 
 /-- An exempt device that satisfies its clause is no longer exempt. -/
-theorem G.unexempt {E N E' : List Nat} {w : World} (h : G E N w) (x : Nat)
+theorem G.unexempt {E N A E' : List Nat} {w : World} (h : G E N A w) (x : Nat)
     (hE : ∀ y ∈ E, y = x ∨ y ∈ E')
-    (hx : ∀ p, holdsD (w.dev x) = some p → Att w x ∨ Blocked w N x p) : G E' N w := by
-  refine ⟨h.s1, h.inv, h.now0, h.ev, h.valid, ?_⟩
+    (hx : ∀ p, holdsD (w.dev x) = some p → Att w x ∨ Blocked w N A x p) : G E' N A w := by
+  refine ⟨h.sc, h.pl, h.inv, h.now0, h.ev, h.valid, h.kv, h.stk, h.wr, h.aok, ?_⟩
   intro d p hd hdE
   by_cases hdx : d = x
   · subst hdx; exact hx p hd
   · exact h.wake d p hd (fun hc => (hE d hc).elim hdx hdE)
 
 /-- A device that refuses everything needs no notification. -/
-theorem G.discharge {E N N' : List Nat} {w : World} (h : G E N w) (x : Nat)
-    (hN : ∀ y ∈ N, y = x ∨ y ∈ N') (hx : accB (w.dev x) = false) : G E N' w := by
-  refine ⟨h.s1, h.inv, h.now0, h.ev, h.valid, ?_⟩
+theorem G.discharge {E N A N' : List Nat} {w : World} (h : G E N A w) (x : Nat)
+    (hN : ∀ y ∈ N, y = x ∨ y ∈ N') (hx : ∀ n, accB n (w.dev x) = false) (hxA : x ∉ A) :
+    G E N' A w := by
+  refine ⟨h.sc, h.pl, h.inv, h.now0, h.ev, h.valid, h.kv, h.stk, h.wr, h.aok, ?_⟩
   intro d p hd hdE
   rcases h.wake d p hd hdE with ha | hb
   · exact Or.inl ha
   · refine Or.inr ⟨hb.1, fun y hy => ?_⟩
-    cases hh : wouldAcceptN w.fuel w N' y p with
+    cases hh : wouldAcceptN w.fuel w N' A y p with
     | false => rfl
     | true =>
-      have := wouldAcceptN_mono (w := w) (w' := w) (N := N) (N' := N') (p := p)
-        (fun _ => ⟨rfl, rfl, rfl⟩) (fun _ => rfl)
+      have := wouldAcceptN_mono (w := w) (w' := w) (N := N) (N' := N') (A := A) (A' := A) (p := p)
+        (TopoEq.refl w) (fun _ => rfl) rfl
         (fun z hz hc => by
           refine ⟨fun hzN => ?_, hc⟩
           rcases hN z hzN with rfl | hzN'
-          · rw [canAcceptBasic_eq h.s1.2, hx] at hc; cases hc
+          · rw [accM_eq, hx, Bool.or_false] at hc
+            exact hxA (by simpa using hc)
           · exact hz hzN') _ _ hh
       rw [hb.2 y hy] at this; cases this
+
+/-- Nothing needs to be assumed about a device that is not counted as willing any more. -/
+theorem G.dropA {E N A A' : List Nat} {w : World} (h : G E N A w) (hA : ∀ y ∈ A', y ∈ A) :
+    G E N A' w := h.mono (fun _ h => h) (fun _ h => h) hA
+
+/-- A batcher that accepts may be counted as willing. -/
+theorem G.introA {E N A : List Nat} {w : World} (h : G E N A w) (x : Nat)
+    (hk : (w.dev x).kind = .batcher) (hx : ∀ n, accB n (w.dev x) = true) :
+    G E N (x :: A) w := by
+  refine ⟨h.sc, h.pl, h.inv, h.now0, h.ev, h.valid, h.kv, h.stk, h.wr, ?_, ?_⟩
+  · intro y hy
+    rcases List.mem_cons.mp hy with rfl | hy
+    · exact hk
+    · exact h.aok y hy
+  · intro d p hd hdE
+    rcases h.wake d p hd hdE with ha | hb
+    · exact Or.inl ha
+    · refine Or.inr ⟨hb.1, fun y hy => ?_⟩
+      cases hh : wouldAcceptN w.fuel w N (x :: A) y p with
+      | false => rfl
+      | true =>
+        have := wouldAcceptN_mono (w := w) (w' := w) (N := N) (N' := N) (A := A) (A' := x :: A)
+          (p := p) (TopoEq.refl w) (fun _ => rfl) rfl
+          (fun z hz hc => by
+            refine ⟨hz, ?_⟩
+            by_cases hzx : z = x
+            · subst hzx; rw [accM_eq, hx]; simp
+            · rw [Bool.or_eq_true] at hc ⊢
+              refine hc.imp (fun h1 => ?_) id
+              have : z ∈ x :: A := by simpa using h1
+              rcases List.mem_cons.mp this with h2 | h2
+              · exact absurd h2 hzx
+              · simpa using h2) _ _ hh
+        rw [hb.2 y hy] at this; cases this
 
 /-! ### `schedulePass` -/
 
@@ -115,19 +277,19 @@ theorem schedulePass_eq (w : World) (x : Nat) (o : Int) (hk : (w.dev x).kind ≠
 
 /-- **The hand-over attempt**: `schedulePass x o` (with `now + o` not after the due time of the
 part `x` holds) makes `x` satisfy its clause; every other device keeps its clause. -/
-theorem G.schedulePass {E N E' : List Nat} {w : World} (h : G E N w) (x : Nat) (o : Int)
+theorem G.schedulePass {E N A E' : List Nat} {w : World} (h : G E N A w) (x : Nat) (o : Int)
     (ho : 0 ≤ o) (hE : ∀ y ∈ E, y = x ∨ y ∈ E')
     (hdue : ∀ p, holdsD (w.dev x) = some p → w.now + o ≤ dueD w.now (w.dev x)) :
-    G E' N (w.schedulePass x o) := by
+    G E' N A (w.schedulePass x o) := by
   by_cases hk : (w.dev x).kind = .sink
   · rw [schedulePass_sink w x o hk]
     refine h.unexempt x hE (fun p hp => ?_)
     have := (holdsD_hl hp).2
     exact absurd hk this
   · rw [schedulePass_eq w x o hk h.now0 ho]
-    have h1 : G (x :: E) N (w.setDev x { w.dev x with waitingDS := false }) :=
+    have h1 : G (x :: E) N A (w.setDev x { w.dev x with waitingDS := false }) :=
       h.setDev x _ rfl (fun p hp => h.valid.dev x p hp) (fun y hy => List.mem_cons_of_mem _ hy)
-        (fun _ h => h) (Or.inr id) (Or.inl (List.mem_cons_self ..))
+        (fun _ h => h) (Or.inr (Or.inr (fun _ => id))) (Or.inl (List.mem_cons_self ..))
     have h2 := h1.schedLib (w.now + o) (w.dev x).aid (Action.passPart x) pPassPart
       (fun d hd => Action.noConfusion hd)
     refine h2.unexempt x (fun y hy => ?_) (fun p hp => Or.inl ?_)
@@ -150,8 +312,8 @@ theorem G.schedulePass {E N E' : List Nat} {w : World} (h : G E N w) (x : Nat) (
         rw [hdx] at hp' ⊢
         exact hdue p hp'
 
-theorem G.schedulePass0 {E N : List Nat} {w : World} (h : G E N w) (x : Nat) :
-    G E N (w.schedulePass x 0) :=
+theorem G.schedulePass0 {E N A : List Nat} {w : World} (h : G E N A w) (x : Nat) :
+    G E N A (w.schedulePass x 0) :=
   h.schedulePass x 0 (Int.le_refl _) (fun y hy => Or.inr hy)
     (fun p _ => by rw [Int.add_zero]; exact le_dueD _ _)
 
@@ -192,7 +354,7 @@ theorem envStep_schedLib (w : World) (t asset : Int) (a : Action) (prio : Int)
     · right; intro d hd; exact ha d (C02V.ofNat_toNat_fail a d hd)
     · exact Or.inl hn
   · rw [schedLib_of_lt w t asset a prio (Int.not_le.mp hle)]
-    exact .of_env (setErr_env _ _)
+    exact .of_env (C03.setErr_env _ _)
 
 theorem envStep_setWaiting (w : World) (x : Nat) (a b : Bool) : EnvStep w (w.setWaiting x a b) := by
   apply EnvStep.of_env
@@ -218,8 +380,8 @@ theorem envStep_notify_aux (n : Nat) :
   | zero =>
     intro w x
     constructor
-    · rw [notifyUp]; exact .of_env (setErr_env _ _)
-    · rw [spaceAvail]; exact .of_env (setErr_env _ _)
+    · rw [notifyUp]; exact .of_env (C03.setErr_env _ _)
+    · rw [spaceAvail]; exact .of_env (C03.setErr_env _ _)
   | succ n ih =>
     intro w x
     have hN : ∀ w x, EnvStep w (notifyUp n w x) := fun w x => (ih w x).1
@@ -253,39 +415,67 @@ theorem sw_of_core {w w' : World} (h : w'.core = w.core) : sw w' = sw w := by
     apply List.map_congr_left
     intro d _; rfl
   have h1 : w'.devs.map stat1 = w.devs.map stat1 := by rw [key w', key w, h]
-  rw [h1, core_eq_scripts h, core_eq_targets h]
+  rw [h1, core_eq_scripts h, core_eq_targets h, core_eq_groups h]
 
 theorem holdsD_core (d : Dev) : holdsD d.core = holdsD d := rfl
-theorem accB_core (d : Dev) : accB d.core = accB d := rfl
+theorem accB_core (n : Nat) (d : Dev) : accB n d.core = accB n d := rfl
 theorem dueD_core (n : Int) (d : Dev) : dueD n d.core = dueD n d := rfl
 theorem heldL_core (d : Dev) : heldL d.core = heldL d := rfl
 
-theorem accB_forwardsUp {w : World} (hs : S1 w) {x : Nat} (h : accB (w.dev x) = true) :
-    forwardsUp w x = true := by
-  unfold forwardsUp hasRoom
-  have hk := hs.kindOK x
+theorem accB_nodeOK {w : World} {x n : Nat} (h : accB n (w.dev x) = true) : NodeOK w x := by
+  unfold NodeOK forwardsUp hasRoom
   unfold accB at h
-  cases hkind : (w.dev x).kind <;> simp only [hkind, kindOK] at hk h ⊢
-  · cases hc : (w.dev x).cap with
-    | none => rfl
-    | some c =>
-      simp only [hc, Bool.and_eq_true, decide_eq_true_eq] at h ⊢
-      omega
-  · cases hk
+  rw [Bool.and_eq_true] at h
+  replace h := h.1
+  unfold accB0 at h
+  cases hkind : (w.dev x).kind <;> simp only [hkind] at h ⊢
+  all_goals first
+    | exact Or.inl trivial
+    | exact Or.inr trivial
+    | skip
+  cases hc : (w.dev x).cap with
+  | none => exact Or.inl rfl
+  | some c =>
+    simp only [hc, Bool.and_eq_true, decide_eq_true_eq] at h ⊢
+    left; omega
 
-/-- **Discharge by notification.** -/
-theorem G.notify {E N N' : List Nat} {w : World} (h : G E N w) (x : Nat)
-    (hN : ∀ y ∈ N, y = x ∨ y ∈ N') : G E N' (w.notify x) := by
+theorem forwardsUp_batcher {w : World} {x : Nat} (hk : (w.dev x).kind = .batcher) :
+    forwardsUp w x = true := by
+  unfold forwardsUp; rw [hk]
+
+theorem wouldAcceptN_core {w w' : World} (hc : w'.core = w.core) (f : Nat) (N A : List Nat)
+    (y p : Nat) : wouldAcceptN f w' N A y p = wouldAcceptN f w N A y p := by
+  apply wouldAcceptN_congr
+  · exact ⟨core_eq_dev_kind hc, core_eq_dev_pred hc, core_eq_dev_down hc, core_eq_dev_group hc,
+      core_eq_groups hc⟩
+  · intro pr; unfold gatePred partValue; simp only [core_eq_part hc]
+  · rw [core_eq_part hc]
+  · intro z; unfold accM; rw [core_eq_canAcceptBasic hc z p, core_eq_field procM (fun _ => rfl) hc]
+
+/-- **Discharge by notification.**  The pending notification of `x` is discharged; if `x` is a
+batcher it may be counted as willing from now on (whoever could be waiting for it has been woken,
+whatever its state). -/
+theorem G.notifyG {E N A N' A' : List Nat} {w : World} (h : G E N A w) (x : Nat)
+    (hN : ∀ y ∈ N, y = x ∨ y ∈ N')
+    (hA : ∀ y ∈ A', y ∈ A ∨ (y = x ∧ (w.dev x).kind = .batcher)) : G E N' A' (w.notify x) := by
   have hst := step_notify w x
   have hes := envStep_notify w x
   have hc := hst.core
   have hsw := sw_of_core hc
   have hdc : ∀ y, ((w.notify x).dev y).core = (w.dev y).core := core_eq_dev hc
   have hnow : (w.notify x).now = w.now := hst.mono.now
-  have hpl : PartsLeaf (w.notify x) := by unfold PartsLeaf; rw [core_eq_parts hc]; exact h.s1.2
-  have hs1 : S1 (w.notify x) := h.s1.of_sw hsw hpl
   have hlen : (w.notify x).devs.length = w.devs.length := core_eq_devs_length hc
-  refine ⟨hs1, hes.inv h.inv, by rw [hnow]; exact h.now0, ?_, ?_, ?_⟩
+  have haok : ∀ y ∈ A', (w.dev y).kind = .batcher := by
+    intro y hy
+    rcases hA y hy with h1 | ⟨rfl, h1⟩
+    · exact h.aok y h1
+    · exact h1
+  refine ⟨h.sc.of_sw hsw, fun hb => ?_, hes.inv h.inv, by rw [hnow]; exact h.now0, ?_, ?_, ?_,
+    h.stk.frame (core_eq_parts hc) (core_eq_dev_kind hc),
+    h.wr.same hsw (by rw [core_eq_rm hc])
+      (fun y hy => by rw [← core_eq_dev_waitingRes hc]; exact hy),
+    fun y hy => by rw [core_eq_dev_kind hc]; exact haok y hy, ?_⟩
+  · unfold PartsLeaf; rw [core_eq_parts hc]; exact h.pl ((noBatch_of_sw hsw).mp hb)
   · exact evOK_of h.ev (fun d => core_eq_dev_kind hc d) (fun n hn => by
       rcases hes.acts n hn with h1 | h1
       · exact Or.inl h1
@@ -296,6 +486,7 @@ theorem G.notify {E N N' : List Nat} {w : World} (h : G E N w) (x : Nat)
     have e : (w.notify x).dev i = (w.notify x).devs[i] := dev_getElem hi
     rw [← e, ← heldL_core, hdc, heldL_core] at hp
     exact h.valid.dev i p hp
+  · unfold KidsValid; rw [core_eq_parts hc]; exact h.kv
   · intro d p hd hdE
     have hd0 : holdsD (w.dev d) = some p := by rw [← holdsD_core, ← hdc, holdsD_core]; exact hd
     have hdlt : d < w.devs.length := holdsD_lt hd0
@@ -319,33 +510,40 @@ theorem G.notify {E N N' : List Nat} {w : World} (h : G E N w) (x : Nat)
       | true =>
         refine Or.inr ⟨hfl, fun y hy => ?_⟩
         rw [core_eq_dev_down hc] at hy
-        cases hh : wouldAcceptN (w.notify x).fuel (w.notify x) N' y p with
+        cases hh : wouldAcceptN (w.notify x).fuel (w.notify x) N' A' y p with
         | false => rfl
         | true =>
           exfalso
-          rw [fuel_of_len hlen] at hh
-          have hh0 : wouldAcceptN w.fuel w N' y p = true := by
-            rw [← hh]
-            symm
-            apply wouldAcceptN_congr
-            · intro z
-              exact ⟨core_eq_dev_kind hc z, core_eq_dev_pred hc z, core_eq_dev_down hc z⟩
-            · intro pr; unfold gatePred partValue; simp only [core_eq_part hc]
-            · intro z; exact core_eq_canAcceptBasic hc z p
-          obtain ⟨k, hch, hcab⟩ := wouldAcceptN_local (N := N) (N' := N') (x := x)
-            (fun z hz => (hN z hz).symm)
-            _ y hh0 (hb.2 y hy)
-          rw [canAcceptBasic_eq h.s1.2] at hcab
-          have hfw := accB_forwardsUp h.s1 hcab
-          obtain ⟨hylt, hdy⟩ := h.s1.down_sym hdlt hy
-          have hkn : k ≤ w.devs.length := hch.depth _ (h.s1.depth hylt)
-          have hr : C03.Reach w true (1 + 1 + 2 * k) x d :=
-            hch.reach h.s1 hfw d 1 hylt hdy (.self (n := 0) (holdsD_hl hd0).1)
+          rw [fuel_of_len hlen, wouldAcceptN_core hc] at hh
+          have hb2 := hb.2 y hy
+          unfold wouldAcceptN at hh hb2
+          obtain ⟨l, k, hch, hcab⟩ := wouldAcceptS_local (N := N) (N' := N') (A := A) (A' := A')
+            (x := x) (fun z hz => (hN z hz).symm) (fun z hz => (hA z hz).imp id (fun h1 => h1.1))
+            _ y _ hh hb2
+          have hnode : NodeOK w x := by
+            rw [Bool.or_eq_true] at hcab
+            rcases hcab with h1 | h1
+            · exact Or.inl (forwardsUp_batcher (haok x (by simpa using h1)))
+            · rw [accM_eq] at h1; exact accB_nodeOK h1
+          obtain ⟨hylt, hdy⟩ := h.sc.down_sym hdlt hy
+          have hkn : k ≤ 2 * w.devs.length + 1 := (hch.bound h.sc _ _ (h.sc.cost hylt)).2
+          have hny : NodeOK w y := by
+            cases hch with
+            | here _ => exact hnode
+            | step he _ => exact nodeOK_ctrl he
+          have hr : C03.Reach w true (1 + 1 + k) x d :=
+            hch.reach h.sc _ hylt hnode
+              (.up (forwards_of_up h.sc hylt hny hdy) hdy (.self (n := 0) (holdsD_hl hd0).1))
           have hr' : C03.Reach w true w.fuel x d := hr.le (by unfold World.fuel; omega)
           have hwk := reach_wakes hdlt (holdsD_hl hd0).2
             (by rw [operational_eq]; exact holdsD_opn hd0) hr' w rfl (Or.inl hb.1)
           have : ((w.notify x).dev d).waitingDS = false := hwk.1
           rw [this] at hfl; cases hfl
+
+/-- **Discharge by notification** (the masks `A` unchanged). -/
+theorem G.notify {E N A N' : List Nat} {w : World} (h : G E N A w) (x : Nat)
+    (hN : ∀ y ∈ N, y = x ∨ y ∈ N') : G E N' A (w.notify x) :=
+  h.notifyG x hN (fun _ hy => Or.inl hy)
 
 end C03W
 end SimProc
